@@ -4,6 +4,7 @@ use scale_info::{Path, PathError};
 use serde_json::{json, Value};
 use std::io::{BufRead, Write};
 
+mod meta;
 mod ops;
 mod reg;
 
